@@ -63,6 +63,24 @@ CHECKS = {
    text="With the harness disposing of every value handed back, after every transition (and again after commit) the slab IDs held by write set + ledger must equal the IDs reachable from live roots by an independent traversal, each referenced once, one owner per tree; alphabets are biased to auxiliary slabs (externalised values/keys, inline<->standalone children, bulk pops).",
    note="CheckStorageHealth is used only as a second opinion (C20 decides its trustworthiness).", ref="§5 C09"),
 }
+# additions made after the table was first written (appended to the texts above)
+EXTRA = {
+ "C01": " Also: arrays that are elements of an array operated on through their handles, and histories with commit / reopen events inside (differential against the event-free history).",
+ "C02": " Also: maps that are values of a map operated on through their handles, and histories with commit / reopen events inside (differential against the event-free history).",
+ "C03": " Collision universes (every 5th digest assignment), element-kind and externalised-key universes with commits in the alphabet are included.",
+ "C04": " In addition every pending write set found by an explicit-state search of a bounded universe (depth 3 quick / 4 thorough) is committed under every map iteration order deviation.",
+ "C05": " The spaces include children of every kind (inlined, standalone, wrapped, composite maps of two types) in every slab of multi-level parents, children holding externalised values, and containers produced by the bulk constructors (with nested children).",
+ "C06": " The spaces include children of every kind in every slab of multi-level parents and containers produced by the bulk constructors.",
+ "C07": " The spaces include composite (compact-encoded) children in containers that span several slabs and children of every kind in every slab of multi-level parents.",
+ "C08": " Collision universes (every 2nd digest assignment), element-kind and externalised-key universes, and nested children that change type or overwrite with oversized values are included.",
+ "C10": " Dynamic value classes put children exactly on and one byte over the limit their parent grants them (all parent/child kind combinations, wrapped children); children holding values too large to inline are included.",
+ "C12": " Histories with commit / reopen events inside (collision groups operated on after being committed or decoded) for every assignment, depth-bounded, differential against the event-free history.",
+ "C14": " The same enumeration also runs as a state oracle at every transition of explicit-state searches (mixed universe, splitting maps, cold multi-level trajectories) whose alphabets contain commits, i.e. over every pending write set reachable inside those universes.",
+ "C16": " In addition both commits run under all schedules (one preemption quick / two thorough) over every pending write set found by an explicit-state search of a bounded universe.",
+ "C18": " Rejected requests whose value is a container (a detached child offered at an invalid position) are included, with histories continuing through both containers.",
+ "C19": " Plus every well-formed element insertion/deletion (counts adjusted) and, for the short registers, the pair neighbourhood: every such structural edit combined with every +-1/+-2/single-bit change of every byte.",
+ "C20": " The storage that ran the history (with FastCommit(1), FastCommit(3) and NondeterministicFastCommit(2) in the alphabet) is judged as well as a fresh one.",
+}
 NA = {}
 import sys
 props=[json.loads(l)["id"] for l in open("/verif/properties.jsonl")]
@@ -94,7 +112,7 @@ for pid in props:
           "evidence_file": f"/verif/evidence/{pid}.json",
           "replay_cmd_template": f"./run.sh {pid} --replay {{path}}",
           "engine": "vf",
-          "level_claimed": {"category": c["cat"], "text": c["text"], "design_ref": c["ref"]},
+          "level_claimed": {"category": c["cat"], "text": c["text"] + EXTRA.get(pid, ""), "design_ref": c["ref"]},
           "level_note": c["note"],
           "technique": c["tech"],
         })
